@@ -24,6 +24,7 @@ import (
 var c08Mutations = []string{
 	"L:one-participant", "L:zero-challenge", "L:prelocked", "L:sender-mismatch", "L:receiver-mismatch", "L:three-peers", "L:three-parts", "L:stranger-ok-shape",
 	"S:unknown-parent", "S:other-assets", "S:too-many-funds", "S:from-stranger", "S:zero-challenge", "S:prelocked", "S:more-assets",
+	"S:funds-spent-by-inflight-update",
 	"V:funding-agreement-mismatch", "V:short-parents", "V:long-parents", "V:unknown-parent", "V:indexmaps-count", "V:indexmap-entry", "V:too-many-funds",
 	"V:other-assets", "V:zero-challenge", "V:no-parents",
 }
@@ -63,6 +64,10 @@ func genC08(r *kernel.Rand) *kernel.Scenario {
 	return sc
 }
 
+// staleMarker is the challenge duration that marks the harness's crafted
+// "affordable only before the update in flight" sub-channel proposals.
+const staleMarker = 6
+
 type openRec struct {
 	id           channel.ID
 	pn, an       int64
@@ -83,6 +88,36 @@ func execC08(t *testing.T, sc *kernel.Scenario, trace bool) *kernel.Result {
 		zWire := map[wallet.BackendID]wire.Address{channel.TestBackendID: func() *simwire.Address { a := simwire.NewAddress(); copy(a[:], "stranger-Z"); return a }()}
 		p.w.Bus.Name(zWire, "Z")
 		honestToH := 0
+		// The receiver's situation includes updates in flight: whenever the
+		// handler runs for a sub-channel proposal, the parent is locked by the
+		// proposal handling, so the proposal must be affordable in the parent's
+		// current state (the newest one H has enabled).
+		staleLegit := 0
+		origOnProposal := H.OnProposal
+		H.OnProposal = func(cp client.ChannelProposal) (bool, time.Duration) {
+			sp, ok := cp.(*client.SubChannelProposalMsg)
+			if !ok {
+				return origOnProposal(cp)
+			}
+			if l := H.Rec.EnabledOf(sp.Parent); len(l) > 0 {
+				cur := l[len(l)-1].State
+				for a := range cur.Balances {
+					for k := range cur.Balances[a] {
+						if a < len(sp.InitBals.Balances) && k < len(sp.InitBals.Balances[a]) && sp.InitBals.Balances[a][k].Cmp(cur.Balances[a][k]) > 0 {
+							s.Fail("C08.handler-invoked-for-bad-proposal@parent-funds", "the proposal handler of H ran for a sub-channel proposal that takes %v of asset %d from participant %d, whose balance in the parent's current state v%d is %v",
+								sp.InitBals.Balances[a][k], a, k, cur.Version, cur.Balances[a][k])
+						}
+					}
+				}
+			}
+			if sp.ChallengeDuration == staleMarker {
+				// crafted by the harness (nobody completes the opening): affordable at
+				// this moment, hence legitimately shown to the user, who declines
+				staleLegit++
+				return false, s.Delay("react:stale-proposal", 0, 100*time.Microsecond)
+			}
+			return origOnProposal(cp)
+		}
 		var opens []openRec
 		mutants := 0
 		for i := range sc.Steps {
@@ -144,6 +179,7 @@ func execC08(t *testing.T, sc *kernel.Scenario, trace bool) *kernel.Result {
 				mutants++
 				p.injectMutant(i, st, zWire)
 				time.Sleep(time.Duration(st.Int("delay_us")) * time.Microsecond)
+				p.wg.Wait() // an update started by the mutant step has returned
 			}
 			if s.Failed() {
 				break
@@ -167,8 +203,8 @@ func execC08(t *testing.T, sc *kernel.Scenario, trace bool) *kernel.Result {
 			for range p.subs {
 				subsFromA++
 			}
-			if in > honestToH {
-				s.Fail("C08.handler-invoked-for-bad-proposal", "the proposal handler of H ran %d times, only %d well-formed proposals were sent to it", in, honestToH)
+			if in > honestToH+staleLegit {
+				s.Fail("C08.handler-invoked-for-bad-proposal", "the proposal handler of H ran %d times, only %d well-formed proposals were sent to it", in, honestToH+staleLegit)
 			}
 			wantCreated := len(p.chans) + len(p.subs)
 			if got := len(H.Rec.Created); got > wantCreated+0 && mutants > 0 && got > wantCreatedUpper(p) {
@@ -269,7 +305,7 @@ func (p *pair) injectMutant(step int, st *kernel.Step, zWire map[wallet.BackendI
 	A, H := p.n[0], p.n[1]
 	m := st.Str("m")
 	fromWire, fromAcc := A.Wire, A.Acc.Addr
-	if r.Bool(0.4) || m == "S:from-stranger" || m == "L:stranger-ok-shape" {
+	if (r.Bool(0.4) && m != "S:funds-spent-by-inflight-update") || m == "S:from-stranger" || m == "L:stranger-ok-shape" {
 		fromWire, fromAcc = zWire, gen.Pool(6)[5].Addr
 	}
 	mkAlloc := func(parts int, vals ...int64) *channel.Allocation {
@@ -321,6 +357,42 @@ func (p *pair) injectMutant(step int, st *kernel.Step, zWire map[wallet.BackendI
 		// Not sent (the stranger has no client to complete the protocol); counted only.
 		s.Count("probe.control_skipped", 1)
 		return
+	case "S:funds-spent-by-inflight-update":
+		// H pays most of its parent balance to A; while that update is in flight
+		// A's address sends a sub-channel proposal that H can afford before the
+		// update and cannot afford after it.
+		if parent == nil {
+			s.Count("probe.control_skipped", 1)
+			return
+		}
+		l := H.Rec.EnabledOf(parent.ID())
+		if len(l) == 0 {
+			return
+		}
+		ps := l[len(l)-1].State
+		hidx := int(parent.Idx())
+		bH := ps.Balances[0][hidx].Int64()
+		if bH < 8 || len(ps.Locked) > 0 && !channel.IsNoApp(ps.App) {
+			s.Count("probe.control_skipped", 1)
+			return
+		}
+		spend := bH - 1 - int64(r.Intn(3))
+		x := bH - spend + 1 + int64(r.Intn(int(spend)))
+		a := &channel.Allocation{Assets: append([]channel.Asset{}, ps.Assets...), Backends: append([]wallet.BackendID{}, ps.Backends...)}
+		for range ps.Assets {
+			a.Balances = append(a.Balances, []channel.Bal{big.NewInt(0), big.NewInt(0)})
+		}
+		a.Balances[0][hidx] = big.NewInt(x)
+		msg, err = client.NewSubChannelProposal(parent.ID(), staleMarker, a, nonce)
+		if err != nil {
+			break
+		}
+		p.wg.Add(1)
+		go func() {
+			defer p.wg.Done()
+			p.pay(step, parent, 1, spend, 30*time.Second, false)
+		}()
+		time.Sleep(s.Delay(fmt.Sprintf("stale-gap:%d", step), 0, []time.Duration{20 * time.Microsecond, 200 * time.Microsecond, 2 * time.Millisecond}[r.Intn(3)]))
 	case "S:unknown-parent":
 		msg, err = client.NewSubChannelProposal(gen.SubID(r.Uint64()), 5, mkAlloc(2, 1, 1), nonce)
 	case "S:from-stranger", "S:other-assets", "S:too-many-funds", "S:zero-challenge", "S:prelocked", "S:more-assets":
